@@ -34,7 +34,22 @@ fn gen_len16(src: &mut Source) -> usize {
 /// a (61) š (161) ɡ (261) ѡ (461); 1 (31) ı (131) б (431); k (6B) ū (16B)
 pub const ALPHA_COLLIDE: [char; 9] = ['a', 'š', 'ɡ', 'ѡ', '1', 'ı', 'б', 'k', 'ū'];
 
+/// a long token in which (almost) every character is different: more than 64 distinct letters
+fn gen_diverse_word(src: &mut Source) -> Vec<char> {
+    let pool: Vec<char> = crate::gen::SCRIPTS.iter().flat_map(|s| s.chars()).filter(|c| c.is_alphabetic()).collect();
+    let n = src.range(66, 120);
+    let start = src.below(pool.len());
+    let mut v: Vec<char> = (0..n).map(|i| pool[(start + i * 7) % pool.len()]).collect();
+    // a swapped neighbouring pair near the end is what the other word of the pair will carry
+    let i = src.range(n - 6, n - 2);
+    v.swap(i, i + 1);
+    v
+}
+
 fn gen_word16(src: &mut Source, n: usize) -> Vec<char> {
+    if src.chance(1, 40) {
+        return gen_diverse_word(src);
+    }
     let collide = src.chance(1, 4);
     let k = if collide { src.range(2, 9) } else { src.range(2, 6) };
     let mut v: Vec<char> = Vec::with_capacity(n);
@@ -146,12 +161,14 @@ pub fn decode_calls(src: &mut Source) -> Box<dyn Case> {
     while calls.len() < 10 && (calls.len() < 3 || src.chance(5, 6)) {
         calls.push((src.below(pool.len()), src.below(pool.len())));
     }
-    Box::new(C16Calls { pool: pool.into_iter().map(|v| v.into_iter().collect()).collect(), calls })
+    // (k -> s in a third of the cases: doubled s is what German spells ß)
+    let ks = src.chance(1, 3);
+    Box::new(C16Calls { pool: pool.into_iter().map(|v| v.into_iter().map(|c| if ks && c == 'k' { 's' } else { c }).collect()).collect(), calls })
 }
 
 impl Case for C16Calls {
     fn describe(&self) -> Value {
-        json!({"pool": self.pool, "calls_first_second": self.calls})
+        json!({"pool": self.pool, "calls_first_second": self.calls, "words_spelled_with_capitals_and_eszett_through_the_german_record_tokeniser": self.calls.len() % 2 == 0})
     }
     fn key(&self) -> u64 {
         hash64(self)
@@ -159,15 +176,35 @@ impl Case for C16Calls {
     fn check(&self, ctx: &mut Ctx) -> Result<(), Violation> {
         let lang = lang_english();
         let shared = DamerauLevenshtein::new();
-        let texts: Vec<TextOwn> = self.pool.iter().map(|w| text(&w.chars().collect::<Vec<_>>(), &lang)).collect();
+        // half of the cases: the words go through the record tokeniser of a folding language, so that
+        // their original spelling (capitals, ß) differs from the normalised characters the distance
+        // is defined on; the distance may depend on the normalised word only
+        let via_tokeniser = self.calls.len() % 2 == 0;
+        let de = lang_german();
+        let texts: Vec<TextOwn> = self
+            .pool
+            .iter()
+            .enumerate()
+            .map(|(i, w)| {
+                if via_tokeniser {
+                    let spelled: String = w.chars().enumerate().map(|(k, c)| if (k + i) % 3 == 0 { c.to_uppercase().next().unwrap_or(c) } else { c }).collect::<String>().replace("ss", "ß");
+                    let t = lucid_suggest_core::tokenization::tokenize_record(&spelled, &de);
+                    if t.words.len() == 1 { t } else { text(&w.chars().collect::<Vec<_>>(), &lang) }
+                } else {
+                    text(&w.chars().collect::<Vec<_>>(), &lang)
+                }
+            })
+            .collect();
+        // reference texts: the normalised characters alone (source == chars), same classes
+        let plain_texts: Vec<TextOwn> = texts.iter().map(|t| { let w = &t.words[0]; let cs: Vec<char> = t.chars[w.slice.0..w.slice.1].to_vec(); let mut p = Text::from_vec(cs); p.classes = t.classes[w.slice.0..w.slice.1].to_vec(); p }).collect();
         let mut any = false;
         for (n, &(i, j)) in self.calls.iter().enumerate() {
             let d = shared.distance(&texts[i].view(0), &texts[j].view(0));
             let fresh = DamerauLevenshtein::new();
-            let df = fresh.distance(&texts[i].view(0), &texts[j].view(0));
+            let df = fresh.distance(&plain_texts[i].view(0), &plain_texts[j].view(0));
             let info = |x: String| format!("call #{} distance({:?}, {:?}): {}; earlier calls on the same instance (pool indices) {:?}, pool {:?}", n, self.pool[i], self.pool[j], x, &self.calls[..n], self.pool);
             if d != df {
-                return ctx.fail("history-independence", "", info(format!("long-lived instance says {} a fresh instance says {}", d, df)));
+                return ctx.fail("history-independence", "", info(format!("long-lived instance says {} a fresh instance on the bare normalised words says {} (via tokeniser: {})", d, df, via_tokeniser)));
             }
             // every cell word_match may read must equal what a fresh instance leaves behind
             let (la, lb) = (self.pool[i].chars().count(), self.pool[j].chars().count());
